@@ -296,6 +296,11 @@ class BaseEngine(abc.ABC):
                 # Copy the latest measured values in the RegRefs of p.
                 # We cannot copy from prev directly because it could be used in more than one
                 # engine.
+                # values measured in earlier segments are taken over from the previous segment,
+                # the results of the previous segment itself from this engine's samples
+                for k, rr in prev.reg_refs.items():
+                    if rr.val is not None and k in p.reg_refs:
+                        p.reg_refs[k].val = rr.val
                 for k, v in (self.samples_dict or {}).items():
                     p.reg_refs[k].val = v[-1]
 
